@@ -23,6 +23,7 @@ def run(c):
             if len(pick) >= 110:
                 break
         cfgs = pick
+    cfgs += c.tlc("MC_P7Sign", "p7sign_sig.cfg", files={"p7sign_sig.cfg": open(os.path.join(vf.SPEC, "p7sign_cfgs.cfg")).read().replace("INIT Init", "INIT SigInit")}, name="signature-value-shapes").json_lines()
     scen = [dict(g, sc=i, after_error=(g["sched"] == "after_error"), overlapped=(g["sched"] == "overlapped"), busy=(g["sched"] == "busy"), tz=("", "+09:00", "-03:30")[i % 3]) for i, g in enumerate(cfgs)]
     env = dict(os.environ, VERIF_FIXTURES=os.path.join(vf.VERIF, "fixtures"))
     res, deaths = c.run_worker("p7sign", scen, env=env, timeout=1800)
